@@ -102,12 +102,30 @@ CHECKS.update({
                 technique="deterministic simulation used to reach the enforcement points; exhaustive +-2 size windows"),
 })
 
+CHECKS.update({
+    "C17": dict(level="exploration",
+                text="Seeded names over an alphabet with every ARN-significant/forbidden character pushed through the API "
+                     "and (bypassing its validators) through child launches; linkage monitor over the StartExecution "
+                     "response, notifications, stored record, EXPRESS derivation and the record re-created after an "
+                     "injected crash/restart; parse/create inversion on every minted ARN.",
+                ref="5/C17", note=NOTE_BASE + ". The time-out backstop derivation path is not driven.",
+                technique="deterministic simulation: seeded inputs with crash/restart, ARN linkage monitor"),
+    "C18": dict(level="exploration",
+                text="Seeded mutation of well-formed machines and arbitrary JSON values: each goes to the bundled validator "
+                     "(must return a list) and is started beside a healthy execution together with garbage messages on "
+                     "the event queue, under a seeded schedule; accepted-implies-runs, poison-isolation and liveness "
+                     "oracles.",
+                ref="5/C18", note=NOTE_BASE + "; definitions rejected by the validator are only required not to hurt "
+                                             "others (their own zombie executions are a recorded finding).",
+                technique="deterministic simulation: seeded mutation/poison injection beside a healthy workload"),
+})
+
 NA = [
     ("C12", "pure functions of (document, path, result): no schedule, clock, fault or interleaving to simulate"),
     ("C13", "pure function of (template, input, context): no schedule, clock, fault or interleaving to simulate"),
     ("C14", "pure function of (rule tree, input): no schedule, clock, fault or interleaving to simulate"),
 ]
-NOT_YET = {'C11': 'check not built yet (in progress)', 'C15': 'check not built yet (in progress)', 'C17': 'check not built yet (in progress)', 'C18': 'check not built yet (in progress)', 'C19': 'check not built yet (in progress)', 'C20': 'check not built yet (in progress)'}
+NOT_YET = {'C11': 'check not built yet (in progress)', 'C15': 'check not built yet (in progress)', 'C19': 'check not built yet (in progress)', 'C20': 'check not built yet (in progress)'}
 
 FIX_COMMITS = []
 
